@@ -28,9 +28,10 @@ Proof. exact range_fresh. Qed.
 Print Assumptions c03_range_fresh.
 
 Theorem c03_ttl_update : forall old now ttl,
-  0 <= now < 2 ^ 62 -> 0 <= ttl <= maxInt64 ->
-  fst (updateExpire old (setExpire now ttl)) =
-    if ttl =? 0 then old else Z.min maxInt64 (now + ttl).
+  0 <= now < 2 ^ 62 -> 0 <= ttl <= maxInt64 -> 0 <= old ->
+  fst (updateExpire old (setExpire now ttl) now) =
+    if ttl =? 0 then (if negb (old =? 0) && (old <=? now) then 0 else old)
+    else Z.min maxInt64 (now + ttl).
 Proof. exact ttl_update. Qed.
 Print Assumptions c03_ttl_update.
 
